@@ -411,7 +411,9 @@ def failing_leg(ns, res, spec, d, rng):
     conn.commit()
     conn.close()
     failing = [('select a1 where a2 = 1', 'query parsing'), ('select int(a2)', 'query execution'), ('select a1 join nosuch.csv on a1 == b1', 'IO handling'), ('select a1 +', 'syntax error'),
-               ('update a9 = 1', 'query execution'), ('select a1, UNNEST([1]), UNNEST([2])', 'query parsing'), ('select a1 limit x', 'query parsing')]
+               ('update a9 = 1', 'query execution'), ('select a1, UNNEST([1]), UNNEST([2])', 'query parsing'), ('select a1 limit x', 'query parsing'),
+               ('', 'query parsing'), (' ', 'query parsing'), ('select', 'query parsing'), ('where a1 == "a"', 'query parsing'), ('# only a comment', 'query parsing'), (';', 'query parsing'),
+               ('select a1 order by', 'syntax error'), ('select a1 join jn_1.csv on a1 == b9', 'query execution'), ('select a1 strict left join jn_1.csv on a1 == b1', 'query execution')]
     for qtext, etype in failing:
         for mode in ('file', 'stdout', 'sqlite'):
             outp = os.path.join(d, 'o.csv')
@@ -421,7 +423,7 @@ def failing_leg(ns, res, spec, d, rng):
                 with open(inp, 'rb') as f:
                     p = run_cli(['--delim', ',', '--query', qtext], d, stdin=f.read())
             else:
-                if 'nosuch.csv' in qtext:
+                if '.csv' in qtext:
                     continue
                 p = run_cli(['sqlite', db, '--input', 't', '--query', qtext], d)
             res.evaluations += 1
